@@ -207,7 +207,7 @@ fn par<T: UniPar>(alpha: &str, k: usize, max_len: usize, empties: usize) -> Box<
 }
 
 fn family<T: UniPar>(checks: &mut Vec<Box<dyn Check>>, q: bool) {
-    let alphas: &[&str] = if T::ORDER == 0 { &["ext"] } else { &["small", "off9", "tail", "mixed-lo"] };
+    let alphas: &[&str] = if T::ORDER == 0 { &["ext", "extnan"] } else { &["small", "off9", "tail", "mixed-lo"] };
     for a in alphas {
         let k = if T::ORDER == 0 { 5 } else { 4 };
         checks.push(par::<T>(a, k, if q { 5 } else { 6 }, 0));
